@@ -5,7 +5,6 @@ package main
 import (
 	"fmt"
 	"go/token"
-	"os"
 	"strings"
 
 	"golang.org/x/tools/go/ssa"
@@ -18,7 +17,8 @@ C18-b division: a device-derived divisor must be proven non-zero by a dominating
 C18-c chain walks / steps: a loop that advances through a slice by a device-derived step must have that step proven positive.
 C18-e index: a device-derived value used as the index of a slice, array or string element (s[i], not s[a:b]) must be bounded: a dominating comparison with a value that is not itself unbounded device data (len(table), len(table)-1, a validated field), a mask/shift/narrow type that keeps it below the length of a fixed-size array, or the counter of a loop that appends to the indexed slice once per iteration before indexing it.
 C18-f a pointer that an in-package decoder returns together with an error (nil on its error paths) is dereferenced only where that error is known to be nil.
-Sub-slice expressions s[a:b] with device-derived bounds, decompression bombs and time bounds are not covered (see DESIGN.md).`)
+C18-g slice bounds: a device-derived low or high bound of a slice expression s[a:b] must be bounded (a dominating comparison with len(s) or with a value that is not unbounded device data, a min/clamp with len(s), a type whose range is below the proven minimum length of s), and a constant bound on a buffer whose length is device data needs a proven minimum length (a dominating len test, a make of proven minimum, a window s[i:i+n], a length passed alongside, a positive multiple). Seven sites whose bound is relational (listed with the reason in the evidence, keyed by function and operand roots) are trusted after reading; 33 panics of this kind found while building the rule were repaired in /repo.
+Decompression bombs and time bounds are not covered (see DESIGN.md).`)
 }
 
 // fsReaderScope: the package-internal functions reachable from the reading API of pkg, explored with the
@@ -46,6 +46,8 @@ func fsReaderScope(w *World, pkg string) []*ssa.Function {
 
 func runC18(w *World, r *Report) {
 	total := 0
+	trusted := map[string]string{}
+	defer func() { r.Extra["trusted_slice_sites"] = trusted }()
 	for _, pkg := range fsPkgs {
 		fns := fsReaderScope(w, pkg)
 		total += len(fns)
@@ -54,13 +56,7 @@ func runC18(w *World, r *Report) {
 			r.Note("checksum-protected decoder (not a taint source under single-field corruption): %s", p)
 		}
 		sub := newReport("C18", r.Tier)
-		kinds := map[string]bool{"make": true, "divide": true, "step": true, "index": true}
-		if os.Getenv("DFS_C18_LENCONST") != "" {
-			kinds["lenconst"] = true
-		}
-		if os.Getenv("DFS_C18_SLICE") != "" {
-			kinds["slice"] = true
-		}
+		kinds := map[string]bool{"make": true, "divide": true, "step": true, "index": true, "slice": true, "lenconst": true}
 		boundsReport(w, sub, b, "C18", kinds)
 		for _, o := range sub.Obls {
 			switch {
@@ -70,8 +66,18 @@ func runC18(w *World, r *Report) {
 				o.Rule = "C18-b"
 			case strings.HasPrefix(o.Construct, "index"):
 				o.Rule = "C18-e"
-			case strings.HasPrefix(o.Construct, "slice"):
-				o.Rule = "C18-f"
+			case strings.HasPrefix(o.Construct, "slice"), strings.HasPrefix(o.Construct, "lenconst"):
+				o.Rule = "C18-g"
+				base := o.Construct
+				if i := strings.Index(base, " #"); i >= 0 {
+					base = base[:i]
+				}
+				base = strings.TrimSpace(base)
+				if why, ok := c18TrustedSlices[o.Function+"|"+base]; ok && o.Status == Violated {
+					o.Status = Discharged
+					o.Detail = "trusted (relational bound the engine does not derive, confirmed by reading): " + why
+					trusted[o.Function+"|"+base] = why
+				}
 			default:
 				o.Rule = "C18-c"
 			}
@@ -101,6 +107,7 @@ func runC18(w *World, r *Report) {
 	r.Floor("C18-a", r.countRule("C18-a"), 10)
 	r.Floor("C18-b", r.countRule("C18-b"), 5)
 	r.Floor("C18-e", r.countRule("C18-e"), 30)
+	r.Floor("C18-g", r.countRule("C18-g"), 200)
 }
 
 // c18ChainWalks (C18-c): a loop that follows next-cluster links read from the FAT (the argument of
@@ -175,4 +182,17 @@ func c18ChainWalks(w *World, r *Report) {
 	if n == 0 {
 		r.Undecided("C18-c", "filesystem/fat12", "chain walks", "filesystem/fat12", "no cluster-chain walk found (the rule's anchor ClusterValue is gone)")
 	}
+}
+
+// c18TrustedSlices: slice sites whose bound holds by a relation between values that the engine does not derive. Each
+// was confirmed by reading (and by the byte-by-byte corruption sweeps run while the readers were repaired). Keyed by
+// function and operand roots, so a change of the operand's provenance brings the site back as a violation.
+var c18TrustedSlices = map[string]string{
+	"(*ext4.FileSystem).readIbodyXattrs|slice by Uint16()":              "the inode buffer has exactly sb.inodeSize bytes (readInodeRaw makes it that long and fails on a short read); the function returns unless xattrStart+4 <= xattrEnd = sb.inodeSize",
+	"(*ext4.FileSystem).readIbodyXattrs|slice by .inodeSize":            "same buffer: the upper bound is sb.inodeSize, its exact length",
+	"ext4.groupDescriptorsFromBytes|slice by $gdSize":                   "i < len(b)/gdSize, so (i+1)*gdSize <= len(b); gdSize 0 is rejected above",
+	"(*fat12.File).Read|slice by $b,.bytesPerCluster,.fileSize,.offset": "toRead = min(bytesPerCluster, maxRead-totalRead) and maxRead <= len(b), so totalRead+toRead <= len(b)",
+	"(*iso9660.rockRidgeExtension).parseSymlink|slice by $b":            "2+int(b2[1]) <= len(b2) is tested on the same byte two lines above, and len(b) <= 255 (it equals the entry's length byte), so 2+size does not wrap in uint8",
+	"(*iso9660.directoryEntry).getLocationBelow|slice by":               "dirb is one whole block (Read accepts only block sizes 2048, 4096 and 8192 and replaces 0 by 2048) and the bound is a single byte (at most 255)",
+	"squashfs.parseDirectory|slice by parseDirectoryEntry()":            "pos advances by the size parseDirectoryEntry returns, which it has compared with len(b[pos:]) before returning success",
 }
